@@ -395,6 +395,9 @@ def verify_function(w, key):
         res.obligations.extend(ctx.obligations)
         res.notes.extend(ctx.notes)
     # de-duplicate identical obligations produced on replayed prefixes
+    for ob in res.obligations:
+        if "fuel" in c:
+            ob.fuel = c["fuel"]
     uniq = {}
     for ob in res.obligations:
         k = (ob.kind, ob.name, ob.line, tuple(x.get_id() for x in ob.pc), ob.goal.get_id())
